@@ -13,7 +13,7 @@ import glob, json, os, subprocess, sys
 sys.path.insert(0, os.path.dirname(os.path.abspath(__file__)))
 from _harvest import sh, run_quick, harvest
 
-WT = "/tmp/wt_sreg"
+WT = os.environ.get("SEED_REGRESS_WT", "/tmp/wt_sreg")
 
 
 def main():
